@@ -2,6 +2,7 @@
 from campaigns.testcmd import TestCmd
 from campaigns.life import Life
 from campaigns.tags import Tags
+from campaigns.unquoted import Unquoted
 
 PROPERTY = "C01"
 LEVEL = "exploration"
@@ -14,7 +15,8 @@ COMPONENTS = {"bumpver cli test/update": "real", "clock": "simulated", "files": 
               "VCS": "FakeRepo or none"}
 CAMPAIGNS = [TestCmd("C01", quick=20000, thorough=800000, sv_rate=0.35),
              Life("C01", quick=6000, thorough=300000, sv_rate=0.35, dry_rate=0.3),
-             Tags("C01", quick=3000, thorough=100000)]
+             Tags("C01", quick=3000, thorough=100000),
+             Unquoted("C01", quick=300, thorough=6000)]
 
 
 def sanity_gate(tier, total):
